@@ -819,6 +819,24 @@ def lazy_state_rule(ctx: Ctx, functions, rule: str = "LAZY") -> int:
                     bad.append((fi, st))
             elif isinstance(st, ast.Call) and isinstance(st.func, ast.Attribute) and st.func.attr in ("append", "insert", "add") and st.args and lazy(st.args[-1]):
                 bad.append((fi, st))
+    # a local bound to a one-shot iterator and then consumed more than once (the second consumer sees nothing)
+    for q in sorted(functions):
+        fi = p.functions.get(q)
+        if fi is None:
+            continue
+        lazies = {}
+        for st in ast.walk(fi.node):
+            if isinstance(st, ast.Assign) and len(st.targets) == 1 and isinstance(st.targets[0], ast.Name) and lazy(st.value) \
+                    and not (isinstance(st.value, ast.Call) and st.value.func.id == "enumerate"):
+                lazies[st.targets[0].id] = st
+        for name, st in lazies.items():
+            stores = [x for x in ast.walk(fi.node) if isinstance(x, ast.Name) and x.id == name and isinstance(x.ctx, ast.Store)]
+            uses = [x for x in ast.walk(fi.node) if isinstance(x, ast.Name) and x.id == name and isinstance(x.ctx, ast.Load)]
+            in_loop = any(isinstance(a, (ast.For, ast.While)) and st not in list(ast.walk(a)) for u in uses for a in ancestors(u)
+                          if not (isinstance(a, ast.For) and a.iter is u))
+            n += 1
+            if len(stores) == 1 and (len(uses) > 1 or in_loop):
+                bad.append((fi, st))
     ctx.check(not bad, rule, f"no attribute holds a one-shot iterator ({n} attribute stores inspected)",
               function=bad[0][0].qualname if bad else "*",
               construct="an object attribute is assigned a one-shot iterator" if bad else "ok",
